@@ -267,7 +267,7 @@ def run(ctx):
             break
     ctx.assumptions += ["schedules on the real code are those produced by the Go scheduler under the seeded yields and GOMAXPROCS 1/2/16",
                         "a hang / leak is reported only when a stop-the-world snapshot shows every goroutine of the call blocked on a "
-                        "channel / lock (or still present 2 s after the generator returned)"]
+                        "channel / lock; goroutines that are merely slow are waited for (30 s, then exit 2)"]
 
 
 def replay(ctx, rp):
